@@ -1358,6 +1358,20 @@ def summarise_case(case):
                 files=case.get("files"), gseed=case.get("gseed"))
 
 
+def hyps_key(m):
+    """which hypotheses of the whole-build / order-independence theorems the case meets (evaluated by the model)"""
+    h = sx.field(m, "hyps")
+    if not h:
+        return "theorem_hyps:unknown"
+    d = {}
+    for e in h:
+        if isinstance(e, list) and len(e) == 2:
+            d[str(e[0])] = str(e[1])
+    if "collision_free" not in d:
+        return "theorem_hyps:no_input_state"
+    return "theorem_hyps:collision_free=%s,clean=%s" % (d["collision_free"], d.get("clean"))
+
+
 def run_property(pid, prop, tier, seed, scratch, replay=None):
     custom = prop.get("runner")
     if custom:
@@ -1385,6 +1399,8 @@ def run_property(pid, prop, tier, seed, scratch, replay=None):
             dist["near_miss:" + r.case["exp"]["miss"]] += 1
         if r.m is None:
             dist["no_model_run(parse error)"] += 1
+        else:
+            dist[hyps_key(r.m)] += 1
         if r.hv[0] in ("hang", "crash", "missing"):
             out["breaks"].append(dict(aspect="harness", detail="implementation did not answer: %s" % r.hv[0],
                                       case=summarise_case(r.case)))
